@@ -241,6 +241,8 @@ pub fn feature_modules() -> Vec<(&'static str, String)> {
         m("constrained-alias-values", "Number ::= INTEGER Percent ::= Number (0..100) Wide ::= INTEGER (0..MAX) Narrow ::= Wide (1..10) ExtRoot ::= INTEGER (0..7, ...) Sub ::= ExtRoot (1..5) Alias ::= Percent Sa ::= SEQUENCE { level Percent DEFAULT 50, n Narrow DEFAULT 3, e Sub DEFAULT 2, a Alias DEFAULT 7, f Number (0..9) DEFAULT 4 } pv Percent ::= 20 qv Alias ::= 30 rv Narrow ::= 4 sv Sub ::= 1"),
         // permitted alphabets given by ranges with MIN / MAX ends on every known-multiplier type
         m("alphabet-ends", "A ::= IA5String (FROM (\"a\"..MAX)) B ::= NumericString (FROM (MIN..\"5\")) C ::= PrintableString (FROM (\"A\"..MAX)) D ::= VisibleString (FROM (MIN..MAX)) E ::= BMPString (FROM (\"a\"..MAX)) F ::= UniversalString (FROM (MIN..\"z\")) S ::= SEQUENCE { f IA5String (FROM (\"0\"..MAX)) (SIZE (1..4)), g NumericString (FROM (\"1\"..MAX)) OPTIONAL }"),
+        // value ranges with excluded endpoints (`<` is a lexical item of its own on either side of `..`)
+        m("open-ends", "A ::= INTEGER (1<..5) B ::= INTEGER (1..<5) C ::= INTEGER (0<..<9) D ::= INTEGER (0..3, ..., 7..<9) S ::= SEQUENCE { f INTEGER (-2<..<2) DEFAULT 0 }"),
         m("value-named-like-type", "PDU ::= SEQUENCE { id INTEGER (0..7) } pdu PDU ::= { id 1 } Abc ::= INTEGER abc Abc ::= 5"),
         m("nested-choice-values", "Pdu-Hdr ::= SEQUENCE { c CHOICE { a INTEGER, b NULL } } v Pdu-Hdr ::= { c a:1 } Tp2 ::= CHOICE { a0 SEQUENCE { m0 INTEGER }, a1 CHOICE { a0 INTEGER, a1 NULL } } v2 Tp2 ::= a1:a0:5"),
         // values that select into anonymous CHOICE types nested two and three levels deep (internal names of internal names)
